@@ -41,6 +41,8 @@ def functions():
 def tasks(tier):
     b = META["bounds"][tier]
     ts = [("ff", st, w, init) for st in b["stages"] for w in b["widths"] for init in (0, 1)]
+    # signed input into a wider unsigned output: the stages must keep the input's shape (sign extension at the output)
+    ts += [("ff", st, 2, init, True) for st in b["stages"] for init in (0, -1)]
     ts += [("asyncff", st, e) for st in b["stages"] for e in ("pos", "neg")]
     ts += [("resetsync", st) for st in b["stages"]]
     ts += [("pulse", st) for st in b["stages"]]
@@ -58,11 +60,17 @@ def _stage_signals(d, prefix="stage"):
     return st
 
 
-def check_ff(stages, width, init, canary=False):
-    from amaranth.hdl import Signal, Module, ClockDomain
+def check_ff(stages, width, init, signed_in=False, canary=False):
+    from amaranth.hdl import Signal, Module, ClockDomain, signed
     from amaranth.lib.cdc import FFSynchronizer
-    name = f"FFSynchronizer(stages={stages},w={width},init={init})"
-    i, o = Signal(width, name="i"), Signal(width, name="o")
+    from spec.sem import norm
+    name = f"FFSynchronizer(stages={stages},w={width},init={init}{',signed-into-wider' if signed_in else ''})"
+    if signed_in:
+        i, o = Signal(signed(width), name="i"), Signal(width + 2, name="o")
+        out_of = lambda x: norm(x, width + 2, False)
+    else:
+        i, o = Signal(width, name="i"), Signal(width, name="o")
+        out_of = lambda x: x
     m = Module()
     m.domains.sync = cd = ClockDomain()
     m.submodules.ff = FFSynchronizer(i, o, stages=stages, init=init)
@@ -73,7 +81,7 @@ def check_ff(stages, width, init, canary=False):
     obs = []
     d.reset_state()
     d.apply([])
-    ok = len(flops) == stages and all(d.val(f) == init for f in flops) and d.val(o) == init
+    ok = len(flops) == stages and all(d.val(f) == init for f in flops) and d.val(o) == out_of(init)
     obs.append({"name": f"{name}::initial-output", "kind": "post", "status": "proved" if ok else "refuted",
                 "backend": "closed", "time_s": 0.0,
                 **({} if ok else {"failing_input": {"what": "output / stages do not show init before the first edge"}})})
@@ -86,7 +94,7 @@ def check_ff(stages, width, init, canary=False):
         v = d.val(i)
         d.apply([], path, name + "::pre")
         old = [d.val(f) for f in flops]
-        path.prove(f"{name}::output-is-last-stage", to_sint(d.val(o)) == to_sint(old[-1]))
+        path.prove(f"{name}::output-is-last-stage", to_sint(d.val(o)) == to_sint(out_of(old[-1])))
         for j in range(1, stages + 1):
             d.apply([(clk, 1)], path, f"{name}::edge{j}")
             for k, f in enumerate(flops):
@@ -95,7 +103,7 @@ def check_ff(stages, width, init, canary=False):
             want_o = v if j >= stages else old[stages - 1 - j]
             if canary and j == stages - 1:
                 want_o = v
-            path.prove(f"{name}::edge{j}::output", to_sint(d.val(o)) == to_sint(want_o))
+            path.prove(f"{name}::edge{j}::output", to_sint(d.val(o)) == to_sint(out_of(want_o)))
             d.apply([(clk, 0)], path, f"{name}::fall{j}")
             path.prove(f"{name}::fall{j}::no-change", And(*[to_sint(d.val(f)) == to_sint(v if k < j else old[k - j])
                                                            for k, f in enumerate(flops)]))
@@ -256,9 +264,9 @@ def find_failing_input(res, ob):
 def replay(data):
     import re
     nm = data["obligation"].split("::")[0]
-    m = re.match(r"FFSynchronizer\(stages=(\d+),w=(\d+),init=(\d+)\)", nm)
+    m = re.match(r"FFSynchronizer\(stages=(\d+),w=(\d+),init=(-?\d+)(,signed-into-wider)?\)", nm)
     if m:
-        r = check_ff(int(m.group(1)), int(m.group(2)), int(m.group(3)))
+        r = check_ff(int(m.group(1)), int(m.group(2)), int(m.group(3)), bool(m.group(4)))
     elif nm.startswith("AsyncFFSynchronizer"):
         m = re.match(r"AsyncFFSynchronizer\(stages=(\d+),edge=(\w+)\)", nm)
         r = check_asyncff(int(m.group(1)), m.group(2))
